@@ -124,6 +124,13 @@ class SymEnv(_EnvBase):
             x = SxInt.bv(x.e, x.lo, x.hi)
         return x
 
+    def sbv(self, name, bits=64):
+        """signed integer of `bits` bits (BV flavour): every value in [-2^(bits-1), 2^(bits-1))"""
+        v = z3.BitVec(name, bits)
+        self.ctx.inputs.append((name, "int", (v, True)))
+        self._pin(name, "int", v)
+        return SxInt(v, -(1 << (bits - 1)), (1 << (bits - 1)) - 1, bits)
+
     def int(self, name, lo=None, hi=None):
         """mathematical integer (Int flavour), optionally bounded"""
         v = z3.Int(name)
@@ -325,6 +332,9 @@ class ConcEnv(_EnvBase):
         if (lo is not None and v < lo) or (hi is not None and v > hi):
             raise Infeasible()
         return v
+
+    def sbv(self, name, bits=64):
+        return self.int(name, -(1 << (bits - 1)), (1 << (bits - 1)) - 1)
 
     def bytes(self, name, n, mode="bv"):
         h = self._get(name)
